@@ -33,6 +33,7 @@ type Env struct {
 	pkg     *types.Package
 	depth   int
 	preNAlloc *Term // allocation counter before the call/function (for fresh())
+	hint    types.Type // expected type of an ite whose branches are untyped constants (tail position of a spec func)
 }
 
 func (e *Env) child() *Env {
@@ -156,6 +157,35 @@ func (fx *FnCtx) lookupSpecFunc(env *Env, name string) *SpecFunc {
 
 func (fx *FnCtx) evalSpec(env *Env, e SpecExpr) SV {
 	tc := fx.tc
+	hint := env.hint
+	env.hint = nil
+	if c, ok := e.(*SCall); ok && c.Fun == "ite" && len(c.Args) == 3 {
+		cond := fx.evalBool(env, c.Args[0])
+		env.hint = hint
+		a := fx.evalSpec(env, c.Args[1])
+		env.hint = hint
+		b := fx.evalSpec(env, c.Args[2])
+		env.hint = nil
+		if a.Untyped && b.Untyped {
+			t := types.Type(types.Typ[types.Int])
+			if hint != nil && isIntType(hint) {
+				t = hint
+			}
+			a = fx.typed(a, t)
+			b = fx.typed(b, t)
+		}
+		if a.Untyped {
+			a = fx.typed(a, b.V.T)
+		}
+		if b.Untyped {
+			b = fx.typed(b, a.V.T)
+		}
+		m, err := iteValue(cond, a.V, b.V)
+		if err != nil {
+			fx.specFail(e, "%v", err)
+		}
+		return SV{V: m}
+	}
 	switch x := e.(type) {
 	case *SNum:
 		v, ok := parseNum(x.Text)
@@ -879,6 +909,7 @@ func (fx *FnCtx) evalCall(env *Env, x *SCall) SV {
 		}
 		return SV{V: out}
 	}
+	sub.hint = rtyp
 	r := fx.evalSpec(sub, sf.Body)
 	if r.Untyped {
 		r = fx.typed(r, rtyp)
